@@ -75,9 +75,9 @@ func (e *Encoder) stdlibCall(callee *ssa.Function, cm *ssa.CallCommon, args []Va
 	use := func() { e.usedStdlib[n] = true }
 	intT := types.Typ[types.Int]
 	u8 := types.Typ[types.Uint8]
-	m8 := func() string { return st.get(c, "u8", c.memSort(u8)) }
+	m8 := func() string { return st.get(c, "arr_u8", c.arrSort(u8)) }
 	byteAt := func(s Val, i int64) string {
-		return fmt.Sprintf("(select %s (lelem (sbase %s) %s))", m8(), s.S, c.binopIdx("+", fmt.Sprintf("(soff %s)", s.S), c.idxLit(i)))
+		return fmt.Sprintf("(select (select %s (sbase %s)) %s)", m8(), s.S, c.binopIdx("+", fmt.Sprintf("(soff %s)", s.S), c.idxLit(i)))
 	}
 	be := func(s Val, nbytes int, little bool, t types.Type) string {
 		// big/little-endian composition
